@@ -45,6 +45,14 @@ __CPROVER_ensures(__CPROVER_old(g_ec_n) != 0 ==> (GE_KEEP(g_ec_a0) && SC_KEEP(g_
 __CPROVER_ensures(gej_ok(r))
 ;
 
+/* "*g is the same point afterwards, coordinates unchanged or canonical, magnitude 1 if touched" (in-place normalisation) */
+#ifndef VERIF_NATIVE
+#define GE_SAME_POINT_ENSURES(g) __CPROVER_ensures((g)->infinity == __CPROVER_old((g)->infinity) && ge_ok(g) && \
+    fe_same_or_normalised(fval(&(g)->x), FVAL_OLD((g)->x)) && fe_same_or_normalised(fval(&(g)->y), FVAL_OLD((g)->y)))
+#else
+#define GE_SAME_POINT_ENSURES(g)
+#endif
+
 /* ---- DLEQ verification: verdict oracle for secp256k1_ecdsa_adaptor_verify (its own gate and challenge hash are proved by
  * C14.dleq_verify); logs the statement and proof it was asked about and the verdict ---- */
 #ifdef LOG_DLEQ_VERIFY
@@ -52,8 +60,10 @@ int g_dv_n, g_dv_ret; secp256k1_scalar g_dv_s, g_dv_e; secp256k1_ge g_dv_p1, g_d
 static int secp256k1_dleq_verify(const secp256k1_hash_ctx *hash_ctx, const secp256k1_scalar *s, const secp256k1_scalar *e, secp256k1_ge *p1, secp256k1_ge *gen2, secp256k1_ge *p2)
 __CPROVER_requires(hash_ctx != NULL && __CPROVER_r_ok(s, sizeof(*s)) && __CPROVER_r_ok(e, sizeof(*e)) && scalar_ok(s) && scalar_ok(e))
 __CPROVER_requires(__CPROVER_rw_ok(p1, sizeof(*p1)) && __CPROVER_rw_ok(gen2, sizeof(*gen2)) && __CPROVER_rw_ok(p2, sizeof(*p2)) && ge_ok(p1) && ge_ok(gen2) && ge_ok(p2) && !p1->infinity && !gen2->infinity && !p2->infinity)
-__CPROVER_assigns(g_dv_n, g_dv_ret, g_dv_s, g_dv_e, g_dv_p1, g_dv_gen2, g_dv_p2)
-__CPROVER_ensures(g_dv_n == __CPROVER_old(g_dv_n) + 1 && g_dv_ret == __CPROVER_return_value && SC_EQ(g_dv_s, *s) && SC_EQ(g_dv_e, *e) && GE_EQ(g_dv_p1, *p1) && GE_EQ(g_dv_gen2, *gen2) && GE_EQ(g_dv_p2, *p2))
+/* the real body serialises the three points, i.e. normalises them IN PLACE: they are in the frame, same value mod p afterwards */
+__CPROVER_assigns(*p1, *gen2, *p2, g_dv_n, g_dv_ret, g_dv_s, g_dv_e, g_dv_p1, g_dv_gen2, g_dv_p2)
+__CPROVER_ensures(g_dv_n == __CPROVER_old(g_dv_n) + 1 && g_dv_ret == __CPROVER_return_value && SC_EQ(g_dv_s, *s) && SC_EQ(g_dv_e, *e) && GE_EQ_OLD(g_dv_p1, *p1) && GE_EQ_OLD(g_dv_gen2, *gen2) && GE_EQ_OLD(g_dv_p2, *p2))
+GE_SAME_POINT_ENSURES(p1) GE_SAME_POINT_ENSURES(gen2) GE_SAME_POINT_ENSURES(p2)
 __CPROVER_ensures(__CPROVER_return_value == 0 || __CPROVER_return_value == 1)
 ;
 #endif
@@ -63,9 +73,10 @@ __CPROVER_ensures(__CPROVER_return_value == 0 || __CPROVER_return_value == 1)
 int g_dp_n, g_dp_ret; secp256k1_scalar g_dp_s, g_dp_e, g_dp_sk; secp256k1_ge g_dp_p1, g_dp_gen2, g_dp_p2;
 static int secp256k1_dleq_prove(const secp256k1_context* ctx, secp256k1_scalar *s, secp256k1_scalar *e, const secp256k1_scalar *sk, secp256k1_ge *p1, secp256k1_ge *gen2, secp256k1_ge *p2, secp256k1_nonce_function_hardened_ecdsa_adaptor noncefp, void *ndata)
 __CPROVER_requires(ctx != NULL && __CPROVER_w_ok(s, sizeof(*s)) && __CPROVER_w_ok(e, sizeof(*e)) && __CPROVER_r_ok(sk, sizeof(*sk)) && scalar_ok(sk))
-__CPROVER_requires(__CPROVER_rw_ok(p1, sizeof(*p1)) && __CPROVER_rw_ok(gen2, sizeof(*gen2)) && __CPROVER_rw_ok(p2, sizeof(*p2)) && noncefp != NULL)
-__CPROVER_assigns(*s, *e, g_dp_n, g_dp_ret, g_dp_s, g_dp_e, g_dp_sk, g_dp_p1, g_dp_gen2, g_dp_p2)
-__CPROVER_ensures(g_dp_n == __CPROVER_old(g_dp_n) + 1 && g_dp_ret == __CPROVER_return_value && SC_EQ(g_dp_s, *s) && SC_EQ(g_dp_e, *e) && SC_EQ(g_dp_sk, *sk) && GE_EQ(g_dp_p1, *p1) && GE_EQ(g_dp_gen2, *gen2) && GE_EQ(g_dp_p2, *p2))
+__CPROVER_requires(__CPROVER_rw_ok(p1, sizeof(*p1)) && __CPROVER_rw_ok(gen2, sizeof(*gen2)) && __CPROVER_rw_ok(p2, sizeof(*p2)) && noncefp != NULL && ge_ok(p1) && ge_ok(gen2) && ge_ok(p2))
+__CPROVER_assigns(*s, *e, *p1, *gen2, *p2, g_dp_n, g_dp_ret, g_dp_s, g_dp_e, g_dp_sk, g_dp_p1, g_dp_gen2, g_dp_p2)
+__CPROVER_ensures(g_dp_n == __CPROVER_old(g_dp_n) + 1 && g_dp_ret == __CPROVER_return_value && SC_EQ(g_dp_s, *s) && SC_EQ(g_dp_e, *e) && SC_EQ(g_dp_sk, *sk) && GE_EQ_OLD(g_dp_p1, *p1) && GE_EQ_OLD(g_dp_gen2, *gen2) && GE_EQ_OLD(g_dp_p2, *p2))
+GE_SAME_POINT_ENSURES(p1) GE_SAME_POINT_ENSURES(gen2) GE_SAME_POINT_ENSURES(p2)
 __CPROVER_ensures((__CPROVER_return_value == 0 || __CPROVER_return_value == 1) && scalar_ok(s) && scalar_ok(e))
 ;
 #endif
